@@ -44,6 +44,7 @@ _THEOREMS = [
     "Zrnt.Proofs.C12.exit_marks_only_on_accept",
     "Zrnt.Proofs.C12.exit_violated_never_accept",
     "Zrnt.Proofs.C12.isSlashable_eq_spec",
+    "Zrnt.Proofs.C12.isSlashable_eq_regenerated",
     "Zrnt.Proofs.C12.pslashShapeOk_iff",
     "Zrnt.Proofs.C12.pslashValid_iff",
     "Zrnt.Proofs.C12.pslash_accept_iff_all_conditions",
